@@ -1,23 +1,7 @@
 use tyme4rs::tyme::solar::*;
-use tyme4rs::tyme::Tyme;
 fn main() {
-  // margin of the repaired term lookup: day of term 2m+2 minus the first day of month m+1 (must be >= 0)
-  let mut min_next = (i64::MAX, 0, 0);
-  // and of the start term itself: term 2m+1 should start on or before the last day ... no requirement; report the max lateness of term 2m+1 (start after month end is fine)
-  let mut min_start = (i64::MAX, 0, 0);
-  for y in 1..=9998isize {
-    for m in 1..=12usize {
-      let first_next = SolarMonth::from_ym(y, m).next(1).get_days()[0];
-      let (ty, ti) = if m * 2 + 2 >= 24 { (y + 1, (m * 2 + 2 - 24) as isize) } else { (y, (m * 2 + 2) as isize) };
-      let t = SolarTerm::from_index(ty, ti).get_julian_day().get_solar_day();
-      let margin = t.subtract(first_next) as i64;
-      if margin < min_next.0 { min_next = (margin, y, m); }
-      let (sy, si) = if m * 2 + 1 >= 24 { (y + 1, (m * 2 + 1 - 24) as isize) } else { (y, (m * 2 + 1) as isize) };
-      let s = SolarTerm::from_index(sy, si).get_julian_day().get_solar_day();
-      let ms = s.subtract(first_next) as i64;
-      if ms < min_start.0 { min_start = (ms, y, m); }
-    }
+  for (y,m,d) in [(1,1,1),(1,1,9),(8,11,1),(9,3,1),(23,11,1),(25,3,31),(236,11,1),(237,3,31),(239,11,1),(240,3,31)] {
+    let j = (SolarDay::from_ymd(y,m,d).get_julian_day().get_day() + 0.5).floor() as i64;
+    println!("{}-{}-{} {}", y,m,d,j);
   }
-  println!("min (term 2m+2 day - first day of month m+1) = {:?}", min_next);
-  println!("min (term 2m+1 day - first day of month m+1) = {:?}", min_start);
 }
